@@ -73,6 +73,8 @@ def split_into_chain(r: random.Random, cfg: Dict[str, Any], name: str, eff: Dict
     """writes `eff` as cfg[name] extending a chain of 0-4 ancestors; ancestors also carry overridden
     (wrong) values and non-inheritable keys that must be skipped."""
     depth = r.choice([0, 0, 1, 2, 3, 5])
+    if r.random() < 0.004:
+        depth = r.choice([300, 1100, 2500])  # a valid chain deeper than the interpreter's recursion limit
     keys = [k for k in eff if k not in own_only]
     levels: List[Dict[str, Any]] = [dict() for _ in range(depth + 1)]
     for k in eff:
